@@ -265,7 +265,9 @@ func runC01(c *fw.Case) {
 					{"Eval(unknown column + col)", func() qframe.QFrame {
 						return qf.Eval(any1, qframe.Expr("+", types.ColumnName("no-such-col"), types.ColumnName(any1)), eval.EvalContext(ctx))
 					}},
-					{"Eval(unknown function)", func() qframe.QFrame { return qf.Eval("ev", qframe.Expr("nosuchfn", types.ColumnName(any1)), eval.EvalContext(ctx)) }},
+					{"Eval(unknown function)", func() qframe.QFrame {
+						return qf.Eval("ev", qframe.Expr("nosuchfn", types.ColumnName(any1)), eval.EvalContext(ctx))
+					}},
 					{"Eval(unknown column onto itself)", func() qframe.QFrame { return qf.Eval("no-such-col", qframe.Val(types.ColumnName("no-such-col"))) }},
 					{"Apply(unknown source)", func() qframe.QFrame {
 						return qf.Apply(qframe.Instruction{Fn: func(x int) int { return x }, DstCol: "ap", SrcCol1: "no-such-col"})
